@@ -36,7 +36,7 @@ ASSUMPTIONS = [
     "async pauses are measured on the virtual clock (loop.time()); sync pauses are the recorded time.sleep calls",
     "wrapped callables have a __name__",
 ]
-MINIMUMS = {"monitor:attempts": 5000, "monitor:pauses": 2000, "monitor:delay-args": 500, "retries_observed": 5000, "monitor:cancel-in-pause": 50, "calls_from_a_task_with_a_swallowed_cancellation": 300, "calls_of_callables_with_another_advertised_signature": 3}
+MINIMUMS = {"monitor:attempts": 5000, "monitor:pauses": 2000, "monitor:delay-args": 500, "retries_observed": 5000, "monitor:cancel-in-pause": 50, "calls_from_a_task_with_a_swallowed_cancellation": 300, "calls_of_callables_with_another_advertised_signature": 3, "retries_of_callables_failing_without_a_frame_of_their_own": 100}
 JOBS = {"quick": 4, "thorough": 8}
 LEVEL_TEXT = (
     "The complete product of outcome sequences (up to limit+1 attempts, plus over-call detection), limits 1-4, four caught-set forms, five "
@@ -307,6 +307,105 @@ def run_case(R: Recorder, case: dict[str, Any], verbose: bool = False) -> None:
     del nontrivial
 
 
+def run_frameless(R: Recorder, case: dict[str, Any], verbose: bool = False) -> None:
+    """the retried callable is not a Python function: a C-implemented callable (sync: `partial(next, map(Future.result, prepared))`) or a
+    marked callable handing out prepared futures (async). Its failures are raised without any Python frame of its own - they are
+    failures of the function all the same: caught classes are retried, the rest (and the last failure) reach the caller as they are"""
+    import functools
+    import inspect
+
+    from haiway import retry
+
+    seq, limit, cform, dform, flavour = case["seq"], case["limit"], case["catching"], case["delay"], case["flavour"]
+    clock = VClock()
+    got: dict[str, Any] = {}
+    dargs_log: list[Any] = []
+    excs = {"T": TypeError, "V": ValueError, "K": KeyError}
+    catching = {"default": None, "type-error": TypeError, "lookup": LookupError}[cform]
+
+    def caught(kind: str) -> bool:
+        return kind != "S" and (catching is None or issubclass(excs[kind], catching))
+
+    script = [*seq, *["S"] * (limit + 2)]
+    n_exp = next(i + 1 for i, k in enumerate(script) if not caught(k) or i >= limit)
+
+    async def main(loop: Any) -> None:
+        futs: list[asyncio.Future[Any]] = []
+        outs: list[Any] = []
+        for i, k in enumerate(script):
+            f = loop.create_future()
+            outs.append(("result", i, object()) if k == "S" else excs[k](f"attempt-{i}"))
+            (f.set_result if k == "S" else f.set_exception)(outs[-1])
+            futs.append(f)
+        got["outs"] = outs
+        handed: list[int] = []
+
+        def delay_fn(attempt: int, exc: Exception) -> float:
+            dargs_log.append((attempt, exc))
+            return 0.25 * attempt
+
+        kw: dict[str, Any] = {"limit": limit}
+        if catching is not None:
+            kw["catching"] = catching
+        if dform == "func":
+            kw["delay"] = delay_fn
+        try:
+            if flavour == "sync":
+                def hand_out() -> Any:
+                    for f in futs:
+                        handed.append(len(handed))
+                        yield f  # the generator only hands the prepared future over: the failure is raised by Future.result (C code)
+
+                results = map(asyncio.Future.result, hand_out())
+                wrapped = retry(**kw)(functools.partial(next, results))
+                got["result"] = ("value", wrapped())
+            else:
+                def give() -> Any:
+                    handed.append(len(handed))
+                    return futs[len(handed) - 1]
+
+                inspect.markcoroutinefunction(give)
+                got["result"] = ("value", await retry(**kw)(give)())
+        except BaseException as exc:  # noqa: BLE001
+            got["result"] = ("raise", exc)
+        got["calls"] = len(handed)
+        for f in futs:
+            f.exception() if f.exception() is not None else f.result()
+
+    logging.disable(logging.CRITICAL)
+    try:
+        with patched_time(clock):
+            status, value, loop = run_virtual(main, clock=clock, max_iterations=5000)
+    finally:
+        logging.disable(logging.NOTSET)
+    R.case(case, nontrivial=n_exp > 1)
+    R.count("retries_of_callables_failing_without_a_frame_of_their_own", n_exp - 1)
+    w = {"flavour": flavour, "delay": dform, "callable": "c-level"}
+    if status != "ok":
+        R.monitor("attempts", False, where={**w, "kind": f"run-{status}"}, detail=f"run ended {status}: {value!r}", case=case)
+        return
+    want = got["outs"][n_exp - 1]
+    res = got.get("result")
+    if verbose:
+        print("calls", got.get("calls"), "result", res, "expected calls", n_exp)
+    R.monitor("attempts", got["calls"] == n_exp, where={**w, "kind": "too-many" if got["calls"] > n_exp else "too-few", "after": script[n_exp - 1]},
+              detail=f"{got['calls']} invocations, model {n_exp}; outcomes {script[:n_exp]} (raised by C code: no Python frame of the callable) limit={limit} catching={cform}", case=case)
+    R.monitor("outcome-identity", res is not None and res[1] is want and res[0] == ("value" if script[n_exp - 1] == "S" else "raise"), where={**w, "kind": type(want).__name__ if script[n_exp - 1] != "S" else "value"},
+              detail=f"caller saw {res!r}, model says {want!r}", case=case)
+    if dform == "func":
+        R.monitor("delay-args", [a for a, _ in dargs_log] == list(range(1, n_exp)) and all(e is got["outs"][i] for i, (_, e) in enumerate(dargs_log)), where={**w, "kind": "delay-args"},
+                  detail=f"delay function called with {dargs_log!r} for {n_exp - 1} retries", case=case)
+
+
+def frameless_cases():  # noqa: ANN201
+    for flavour in ("sync", "async"):
+        for limit in (1, 2, 3):
+            for seq in (["S"], ["T", "S"], ["T", "T", "S"], ["T", "T", "T", "T"], ["V", "T", "S"], ["K", "S"], ["T", "K", "S"], ["V"]):
+                for cform in ("default", "type-error", "lookup"):
+                    for dform in ("none", "func"):
+                        yield {"frameless": True, "flavour": flavour, "limit": limit, "seq": seq, "catching": cform, "delay": dform}
+
+
 def cases(tier: str):  # noqa: ANN201
     for limit in (1, 2, 3, 4):
         for seq in sequences(limit):
@@ -342,6 +441,8 @@ def run(R: Recorder, tier: str, seed: int, shard: int, nshards: int) -> None:
         argnames.check(R, "arguments", argname_wrappers())
         argnames.check_injecting(R, "arguments", argname_wrappers())
         stacking.check_retry(R, "attempts")
+        for case in frameless_cases():
+            run_frameless(R, case)
     R.flags["exhaustive"] = True
     R.flags["exhaustive_core"] = "full product of pruned outcome sequences x limits 1-4 x catching forms x delay forms x sync/async x scoped"
     logging.disable(logging.CRITICAL)
@@ -362,6 +463,9 @@ def replay(R: Recorder, case: dict[str, Any]) -> None:
         return
     if "stacking" in case:
         stacking.check_retry(R, "attempts", only=case["stacking"])
+        return
+    if case.get("frameless"):
+        run_frameless(R, case, verbose=True)
         return
     logging.disable(logging.CRITICAL)
     try:
